@@ -10,6 +10,7 @@ import (
 	"fmt"
 	"math/rand"
 	"os"
+	"path/filepath"
 	"strings"
 	"sync/atomic"
 
@@ -43,6 +44,7 @@ type dCase struct {
 	Rules          []dRule    `json:"rules"`
 	Chains         []dChain   `json:"chains"`
 	AllowUnmatched bool       `json:"allowUnmatched"`
+	DupNames       bool       `json:"dupNames"`
 	Own            [][]string `json:"own"` // C07 random cases: their own targets
 	Kind           string     `json:"kind"`
 }
@@ -79,8 +81,25 @@ func (c *countingFactory) Get(cfg *oidcv1.OIDCConfig) oidc.SessionStore {
 const staticOIDC = `{"authorization_uri":"https://idp.example/authorize","token_uri":"https://idp.example/token","callback_uri":"https://app.test/cb",
  "jwks":"{\"keys\":[]}","client_id":"c","client_secret":"s","scopes":["openid"],"id_token":{"header":"authorization","preamble":"Bearer"}}`
 
-func loadDispatchConfig(doc map[string]any) (*configv1.Config, error) {
+// loadDispatchConfig loads the document through the real configuration loader (file -> LocalConfigFile.Validate);
+// documents the loader cannot accept by construction (no chains at all) are decoded directly.
+func loadDispatchConfig(doc map[string]any, tmp string) (*configv1.Config, error) {
+	doc["listen_address"], doc["listen_port"], doc["log_level"] = "127.0.0.1", 10003, "error"
 	b, _ := json.Marshal(doc)
+	if chains, _ := doc["chains"].([]any); len(chains) > 0 && tmp != "" {
+		p := filepath.Join(tmp, "dispatch-config.json")
+		if err := os.WriteFile(p, b, 0o600); err != nil {
+			return nil, err
+		}
+		cf := &internal.LocalConfigFile{}
+		if err := cf.FlagSet().Parse([]string{"--config-path", p}); err != nil {
+			return nil, err
+		}
+		if err := cf.Validate(); err != nil {
+			return nil, fmt.Errorf("loader rejected a dispatch configuration: %w", err)
+		}
+		return &cf.Config, nil
+	}
 	cfg := &configv1.Config{}
 	if err := protojson.Unmarshal(b, cfg); err != nil {
 		return nil, err
@@ -119,7 +138,7 @@ func chars(s string) []any {
 	return out
 }
 
-func runDispatchFile(in, out, targetsFile string) (int, error) {
+func runDispatchFile(in, out, targetsFile, tmp string) (int, error) {
 	f, err := os.Open(in)
 	if err != nil {
 		return 0, err
@@ -188,7 +207,11 @@ func runDispatchFile(in, out, targetsFile string) (int, error) {
 						fl = append(fl, map[string]any{"oidc": o})
 					}
 				}
-				cd := map[string]any{"name": fmt.Sprintf("chain%d", i), "filters": fl}
+				name := fmt.Sprintf("chain%d", i)
+				if c.DupNames {
+					name = "chain" // chain names need not be unique
+				}
+				cd := map[string]any{"name": name, "filters": fl}
 				switch ch.Crit {
 				case "eq":
 					cd["match"] = map[string]any{"header": ch.Hdr, "equality": strings.Join(ch.Val, "")}
@@ -197,7 +220,7 @@ func runDispatchFile(in, out, targetsFile string) (int, error) {
 				}
 				chains = append(chains, cd)
 			}
-			cfg, err := loadDispatchConfig(map[string]any{"chains": chains, "allow_unmatched_requests": c.AllowUnmatched})
+			cfg, err := loadDispatchConfig(map[string]any{"chains": chains, "allow_unmatched_requests": c.AllowUnmatched}, tmp)
 			if err != nil {
 				return n, fmt.Errorf("%s: %w", c.ID, err)
 			}
@@ -206,7 +229,8 @@ func runDispatchFile(in, out, targetsFile string) (int, error) {
 				return n, err
 			}
 			results := []any{}
-			for _, h := range c08Inputs {
+			order := append([]map[string]string{}, c08Inputs...)
+			for _, h := range order {
 				before := calls.Load()
 				hh := map[string]string{}
 				for k, v := range h {
@@ -262,7 +286,7 @@ func runDispatchFile(in, out, targetsFile string) (int, error) {
 		if len(rules) > 0 {
 			doc["trigger_rules"] = rules
 		}
-		cfg, err := loadDispatchConfig(doc)
+		cfg, err := loadDispatchConfig(doc, tmp)
 		if err != nil {
 			return n, fmt.Errorf("%s: %w", c.ID, err)
 		}
